@@ -42,6 +42,13 @@ def build_tasks(spec: dict) -> list:
 
 @st.composite
 def node_sets(draw, min_nodes: int = 1, max_nodes: int = 5, max_big: int = 300_000):
+    if draw(st.integers(0, 4)) == 0:
+        # siblings: cached parents that are identical except for a nested cache=None task
+        k = draw(st.integers(2, 3))
+        shape = draw(shapes(max_big))
+        nodes = [{'name': f'z{i}', 'type': 'RZ', 'shape': ['int', str(i)], 'deps': []} for i in range(k)]
+        nodes += [{'name': 'sib', 'type': 'RV', 'shape': shape, 'deps': [i]} for i in range(k)]
+        return nodes
     n = draw(st.integers(min_nodes, max_nodes))
     nodes = []
     for i in range(n):
